@@ -93,6 +93,9 @@ func (t *smtpTS) Descend(fn *ssa.Function) bool {
 	case t.m.stateWriter, t.m.send, t.m.readLine, t.m.dataRead:
 		return false
 	}
+	if t.m.isSendWrapper(fn) {
+		return false
+	}
 	return fn.Blocks != nil
 }
 
@@ -110,7 +113,7 @@ func (t *smtpTS) Step(in ssa.Instruction, c eng.TSConfig) []eng.TSConfig {
 			}
 			t.ev("enter:"+m.stateName[k], in, c, "")
 			c.A = k
-		case callee == m.send:
+		case callee == m.send || m.isSendWrapper(callee):
 			pre, ok := m.sendPrefix(in)
 			cl := replyClass(pre, ok)
 			t.ev("reply", in, c, string(cl))
@@ -133,6 +136,18 @@ func (t *smtpTS) Step(in ssa.Instruction, c eng.TSConfig) []eng.TSConfig {
 		}
 		f := eng.FieldOfAddr(fa)
 		switch {
+		case m.storesEnvelope(x):
+			if _, fresh := fa.X.(*ssa.Alloc); fresh {
+				break // the session under construction
+			}
+			if m.zeroesEnvelope(x) {
+				c.B = rcEmpty
+				t.ev("recips:clear", in, c, "")
+				t.ev("from:clear", in, c, "")
+			} else {
+				c.B = rcUnknown
+				t.undec = append(t.undec, "unclassified store to the session's envelope record at "+t.c.P.InstrPos(in))
+			}
 		case eng.SameField(f, m.fRecips):
 			switch v := x.Val.(type) {
 			case *ssa.Const:
